@@ -74,6 +74,13 @@ def classify_ser(F, path):
                 ok = False
         if ok:
             return "untagged", fn
+    # a unit-only enum emitted by hand as one text string / one integer per variant
+    try:
+        from . import ftable as FT
+        ty, _enc, _ = FT.enum_encode(F, path)
+        return ("str-enum" if ty == "str" else "repr"), fn
+    except FT.Unreadable:
+        pass
     return "unknown", fn
 
 
